@@ -332,10 +332,15 @@ class MultipartEncoder:
             self.state = State.DATA_START
             return data
         elif isinstance(event, Data) and self.state == State.DATA_START:
-            self.state = State.DATA
             if len(event.data) > 0:
+                self.state = State.DATA
                 return b"\r\n" + event.data
             else:
+                # Keep waiting for the first bytes of the part if more data
+                # follows, they still need the line break after the headers.
+                if not event.more_data:
+                    self.state = State.DATA
+
                 return event.data
         elif isinstance(event, Data) and self.state == State.DATA:
             return event.data
